@@ -61,7 +61,8 @@ Fixpoint spec_run (l : list A) (ops : list op) : list A * list out :=
   end.
 
 (* ---------- FIFO queue ---------- *)
-Inductive uop : Type := UPush (a : A) | UPop | UFront | ULen.
+(* UInit: Init(), which empties the queue *)
+Inductive uop : Type := UPush (a : A) | UPop | UFront | ULen | UInit.
 (* UONone: Push; UOVal a: (a, true); UOEmpty: (nil, false); UOInt: Len; UOCrash: run-time error *)
 Inductive uout : Type := UONone | UOVal (a : A) | UOEmpty | UOInt (z : Z) | UOCrash.
 
@@ -71,6 +72,7 @@ Definition fifo_step (l : list A) (o : uop) : list A * uout :=
   | UPop => match l with [] => (l, UOEmpty) | x :: r => (r, UOVal x) end
   | UFront => match l with [] => (l, UOEmpty) | x :: _ => (l, UOVal x) end
   | ULen => (l, UOInt (zlen l))
+  | UInit => ([], UONone)
   end.
 
 Fixpoint fifo_run (l : list A) (ops : list uop) : list A * list uout :=
